@@ -903,10 +903,17 @@ def _pick_dialect(rng, fmt):
         d["indent"] = rng.random() < 0.3
         d["extras"] = rng.random() < 0.3
     if fmt == "stl":
-        d["order"] = rng.randrange(2)
+        d["order"] = rng.choice([0, 1, 1])
         d["extras"] = rng.random() < 0.5
         d["indent"] = rng.random() < 0.5
-        d["float"] = rng.choice(["repr", "17g", "exp", "fixed"])
+        d["float"] = rng.choice(["repr", "17g", "exp", "exp3", "fixed"])
+        if d["order"] == 1:
+            # ASCII dialects: several `solid ... endsolid` blocks per file, names, blank lines (facet counts are drawn by the caller)
+            d["n_solids"] = rng.choice([1, 2, 2, 3, 5])
+            d["empty_solid"] = rng.random() < 0.25
+            d["names"] = rng.choice(["named", "unnamed", "mixed"])
+            d["endname"] = rng.random() < 0.6
+            d["blank"] = rng.random() < 0.3
     if fmt == "geogram_ascii":
         d["comments"] = rng.random() < 0.6
         d["extras"] = rng.choice(["native", "native", "ptr", "min"])
@@ -973,6 +980,10 @@ def direction_foreign(ctx, desc, inp, fmt, tmp, cfg):
         V32 = [tuple(_f32(c) for c in p) for p in Vf]
         data = {"T": _soup(V32, tris, cast=False)}
         exp = {"V": None, "E_allowed": [], "E_required": [], "F": [], "C": [], "perkind": False, "soup": data["T"]}
+        if d["order"] == 1:
+            d["solids"] = codecs.stl.split_solids(len(data["T"]), d["n_solids"], d["empty_solid"], rng)
+            ctx.cls("dialect:stl:solids=%s" % ("1" if len(d["solids"]) == 1 else "several" + ("+empty" if 0 in d["solids"] else "")))
+            ctx.cls("dialect:stl:names=%s,endname=%s" % (d["names"], d["endname"]))
     if fmt == "geogram_ascii":
         sizes = {"vertices": len(Vf), "edges": len(data["E"]), "faces": len(data["F"]), "face_corners": sum(len(f) for f in data["F"]),
                  "cells": len(data["C"]), "cell_corners": sum(len(c) for c in data["C"]),
@@ -990,8 +1001,10 @@ def direction_foreign(ctx, desc, inp, fmt, tmp, cfg):
         assert diff_vertices(data["V"], back["V"]) is None and srt(back["F"]) == srt(data["F"]) and srt(back["C"]) == srt(data["C"]) \
             and sorted(back["E"]) == sorted(tuple(sorted(e)) for e in data["E"]), "reference codec %s" % fmt
     else:
-        assert back["F"] and len(back["F"]) == len(data["T"]), "reference codec stl"
+        assert back["F"] and back == _ref_snapshot(fmt, data), "reference codec stl"
     tag = ""
+    if fmt == "stl" and d["order"] == 1:
+        tag = "_ascii" + ("_blank_lines" if d.get("blank") else "")
     if fmt == "geogram_ascii":
         tag = "_" + str(d["extras"]) + ("_nonsimplicial_cells" if any(len(c) != 4 for c in data["C"]) else "_tets" if data["C"] else "")
     if fmt == "obj" and d["order"] == 2 and any(E[i][1] == E[i + 1][0] for i in range(len(E) - 1)):
